@@ -7,8 +7,10 @@ An operation descriptor is a JSON list ``[opname, ...]`` whose object arguments 
 modulo the size of a pool that is recomputed from the *current* model by a deterministic walk,
 so every sub-sequence of a history is executable (ddmin) and histories continue naturally on a
 clone or on a deserialised model.  The workload is confined as DESIGN.md says: device indices are
-always in range, shapes are never edited, all value/node names are non-empty and unique per
-namespace, graphs stay topologically sorted (replacement values are drawn from what is visible
+always in range, shapes are never edited, value names are non-empty and unique within each graph
+(a value of a nested graph MAY carry the name of a value of an enclosing or sibling graph - op
+``shadow`` - as long as every by-identity reference is still what an innermost-first lookup of
+its name finds), graphs stay topologically sorted (replacement values are drawn from what is visible
 *before* the consumer), and a configuration that nodes still refer to is never removed without
 cascade (documented to leave dangling references; the statement lists cascade only).
 """
@@ -169,6 +171,7 @@ class NodeInfo:
     node: Any
     scope: str          # "main", "main/sub", "func", "func/sub"
     avail: list         # values visible before the node (own and enclosing graphs)
+    graph: Any = None   # the graph object the node was found in
 
 
 class Index:
@@ -177,16 +180,30 @@ class Index:
         self.values: list = []
         self.rauw: dict[int, list] = {}
         self._seen: set[int] = set()
-        self._walk(model.graph, [], "main")
+        self.graphs: list = []                       # every graph, outer before inner
+        self.chain: dict[int, list] = {}             # id(graph) -> [outermost, ..., graph]
+        self.defined: dict[int, list] = {}           # id(graph) -> values defined in it (inputs, initializers, node outputs)
+        self.def_graph: dict[int, Any] = {}          # id(value) -> defining graph
+        self.node_graph: dict[int, Any] = {}         # id(node) -> graph
+        self._walk(model.graph, [], "main", [])
         for f in model.functions.values():
-            self._walk(f.graph if hasattr(f, "graph") else f, [], "func")
+            self._walk(f.graph if hasattr(f, "graph") else f, [], "func", [])
 
     def _add_value(self, v):
         if v is not None and id(v) not in self._seen:
             self._seen.add(id(v))
             self.values.append(v)
 
-    def _walk(self, graph, outer, scope):
+    def _define(self, graph, v):
+        if id(v) not in self.def_graph:
+            self.def_graph[id(v)] = graph
+            self.defined[id(graph)].append(v)
+
+    def _walk(self, graph, outer, scope, chain):
+        chain = chain + [graph]
+        self.graphs.append(graph)
+        self.chain[id(graph)] = chain
+        self.defined[id(graph)] = []
         base = list(outer)
         have = {id(v) for v in base}
         own = []
@@ -196,25 +213,91 @@ class Index:
                 base.append(v)
                 own.append(v)
             self._add_value(v)
+            self._define(graph, v)
         for v in own:
             self.rauw[id(v)] = [u for u in base if u is not v]
         running = list(base)
         for node in graph:
-            info = NodeInfo(node, scope, list(running))
+            info = NodeInfo(node, scope, list(running), graph)
             self.nodes.append(info)
+            self.node_graph[id(node)] = graph
             for attr in node.attributes.values():
                 if not isinstance(attr, ir.Attr) or attr.is_ref():
                     continue
                 if attr.type == GRAPH_T:
-                    self._walk(attr.value, running, scope if scope.endswith("/sub") else scope + "/sub")
+                    self._walk(attr.value, running, scope if scope.endswith("/sub") else scope + "/sub", chain)
                 elif attr.type == GRAPHS_T:
                     for g in attr.value:
-                        self._walk(g, running, scope if scope.endswith("/sub") else scope + "/sub")
+                        self._walk(g, running, scope if scope.endswith("/sub") else scope + "/sub", chain)
             outs = list(node.outputs)
             for v in outs:
                 self._add_value(v)
+                self._define(graph, v)
                 self.rauw.setdefault(id(v), info.avail + [u for u in outs if u is not v])
             running = running + outs
+
+
+def _defined_names(idx: Index, override=None):
+    """id(graph) -> {name: value}; None when two values of one graph share a name."""
+    out = {}
+    for g in idx.graphs:
+        d: dict = {}
+        for v in idx.defined[id(g)]:
+            n = override.get(id(v), v.name) if override else v.name
+            if n in d and d[n] is not v:
+                return None
+            d[n] = v
+        out[id(g)] = d
+    return out
+
+
+def _resolves(chain, names, value, name) -> bool:
+    """Innermost-first lookup of ``name`` along ``chain`` reaches ``value`` (or nothing at all)."""
+    for g in reversed(chain):
+        hit = names[id(g)].get(name)
+        if hit is not None:
+            return hit is value
+    return True
+
+
+def resolution_ok(idx: Index, override=None) -> bool:
+    """Name-based serialisation is well defined: names are unique within each graph and every node
+    input / graph output, looked up by its (possibly overridden) name innermost scope first, is the
+    value the node refers to by identity.  Inner values MAY share a name with a value of an
+    enclosing or sibling graph (shadowing)."""
+    names = _defined_names(idx, override)
+    if names is None:
+        return False
+
+    def nm(v):
+        return override.get(id(v), v.name) if override else v.name
+    for info in idx.nodes:
+        chain = idx.chain[id(info.graph)]
+        for u in info.node.inputs:
+            if u is not None and not _resolves(chain, names, u, nm(u)):
+                return False
+    for g in idx.graphs:
+        for u in g.outputs:
+            if u is not None and not _resolves(idx.chain[id(g)], names, u, nm(u)):
+                return False
+    return True
+
+
+def shadowed_spec_refs(idx: Index) -> int:
+    """Number of sharding specs whose value carries a name that an enclosing graph also defines."""
+    names = _defined_names(idx)
+    if names is None:
+        return 0
+    n = 0
+    for info in idx.nodes:
+        for dc in info.node.device_configurations:
+            for spec in dc.sharding_specs:
+                g = idx.def_graph.get(id(spec.value)) if spec.value is not None else None
+                if g is None:
+                    continue
+                if any(spec.value.name in names[id(o)] for o in idx.chain[id(g)][:-1]):
+                    n += 1
+    return n
 
 
 def io_values(node) -> list:
@@ -396,11 +479,44 @@ class C19World:
             v.name = self.fresh("r")
         return self._call(res, do)
 
+    def _op_shadow(self, val_i, k):
+        """Rename a value to the current name of a value of an enclosing or sibling graph (same
+        namespace), keeping names unique within each graph and every by-identity reference
+        resolvable by name innermost-first."""
+        idx = self.index()
+        if not idx.values:
+            return Result("rename-shadow", skipped="no values")
+        v = idx.values[val_i % len(idx.values)]
+        g = idx.def_graph.get(id(v))
+        if g is None:
+            return Result("rename-shadow", skipped="value not defined in the model")
+        root = idx.chain[id(g)][0]
+        pool: list[str] = []
+        for other in idx.graphs:
+            if other is g or idx.chain[id(other)][0] is not root:
+                continue
+            for u in idx.defined[id(other)]:
+                if u.name and u.name != v.name and u.name not in pool:
+                    pool.append(u.name)
+        for j in range(min(len(pool), 8)):
+            name = pool[(k + j) % len(pool)]
+            if resolution_ok(idx, {id(v): name}):
+                res = Result("rename-shadow", info={"value": v, "old": v.name, "new": name})
+
+                def do(name=name):
+                    v.name = name
+                return self._call(res, do)
+        return Result("rename-shadow", skipped="no shadowing name keeps references resolvable")
+
     def _op_rin(self, node_i, in_idx, k):
         info = self.pick_node(node_i)
         if info is None or not info.node.inputs:
             return Result("rin", skipped="no inputs")
-        cands = [None] + info.avail
+        index = self.index()
+        names = _defined_names(index)
+        chain = index.chain[id(info.graph)]
+        # a replacement must still be reachable by its name from the node's scope (not shadowed)
+        cands = [None] + [v for v in info.avail if names is None or _resolves(chain, names, v, v.name)]
         new = cands[k % len(cands)]
         idx = in_idx % len(info.node.inputs)
         res = Result("rin", info={"node": info.node})
@@ -433,6 +549,10 @@ class C19World:
             return Result("rauw", skipped="no values")
         v = idx.values[val_i % len(idx.values)]
         cands = idx.rauw.get(id(v)) or []
+        names = _defined_names(idx)
+        if names is not None:
+            chains = [idx.chain[id(idx.node_graph[id(u.node)])] for u in v.uses() if id(u.node) in idx.node_graph]
+            cands = [c for c in cands if all(_resolves(ch, names, c, c.name) for ch in chains)]
         if not cands:
             return Result("rauw", skipped="no replacement visible")
         w = cands[k % len(cands)]
@@ -490,7 +610,7 @@ class C19World:
 # ------------------------------------------------------------------------------------------
 # generator of operation descriptors
 # ------------------------------------------------------------------------------------------
-WEIGHTS = {"addcfg": 5, "shard": 34, "stage": 8, "rename": 8, "rin": 10, "rsi": 4, "rso": 6, "rauw": 5, "rm": 2,
+WEIGHTS = {"addcfg": 5, "shard": 34, "stage": 8, "rename": 7, "shadow": 5, "rin": 10, "rsi": 4, "rso": 6, "rauw": 5, "rm": 2,
            "clone": 4, "rmcfg": 4, "rt": 6}
 
 
@@ -499,9 +619,13 @@ class OpGen:
         self.rng, self.w, self.hostile = rng, world, hostile
         self.kinds = list(WEIGHTS)
         self.weights = [WEIGHTS[k] for k in self.kinds]
+        self.initial_shadows = rng.choice([0, 0, 1, 2, 3])   # models that start with shadowed names
 
     def op(self) -> list:
         rng, w = self.rng, self.w
+        if self.initial_shadows > 0:
+            self.initial_shadows -= 1
+            return ["shadow", rng.randrange(256), rng.randrange(64)]
         cfgs = w.model.device_configurations
         if not cfgs and rng.random() < 0.7:
             kind = "addcfg"
@@ -519,6 +643,8 @@ class OpGen:
             return ["stage", self._annotated_node_or_any(), R(8), rng.choice([0, 0, 1, 2, 3])]
         if kind == "rename":
             return ["rename", self._annotated_value_or_any()]
+        if kind == "shadow":
+            return ["shadow", self._annotated_value_or_any(), R(64)]
         if kind == "rin":
             return ["rin", self._annotated_node_or_any(), R(4), R(40)]
         if kind == "rsi":
